@@ -191,7 +191,7 @@ def _delete_elf_symbol_versions(
     for id in ids_to_remove:
         # Keep library file definitions
         versions, flags = defs[id]
-        if flags != _VER_FLG_BASE:
+        if not flags & _VER_FLG_BASE:
             del defs[id]
 
     # Remove ElfSymVerNeeded which have no remaining versions
